@@ -90,6 +90,11 @@ def run(res, tier, replay):
                 r = subprocess.run([exe, "-t", bp], capture_output=True, env=env, timeout=60); nruns += 1
                 failed = "failed" in r.stdout.decode("latin1") or r.stderr
                 if (r.returncode == 0) == bool(failed): bad("exit status %d although %s" % (r.returncode, "a member failed" if failed else "nothing failed"), "damaged copy of a.cab: %s" % bytes(b).hex()[:200], "c17:exit")
+                # the other modes decode the same members: they must fail (exit status) exactly when the test mode does
+                rp = subprocess.run([exe, "-p", "-q", bp], capture_output=True, env=env, timeout=60); nruns += 1
+                dd = os.path.join(work, "dbad"); rx = subprocess.run([exe, "-q", "-d", dd, bp], capture_output=True, env=env, timeout=60); nruns += 1
+                if len({r.returncode == 0, rp.returncode == 0, rx.returncode == 0}) != 1:
+                    bad("exit status differs between modes on the same damaged cabinet: -t %d, -p %d, extract %d" % (r.returncode, rp.returncode, rx.returncode), "damaged copy of a.cab (hex): %s" % bytes(b).hex(), "c17:exit-modes")
             shutil.rmtree(work, ignore_errors=True)
     finally:
         shutil.rmtree(base, ignore_errors=True)
